@@ -188,6 +188,19 @@ def build_scenarios(singles, pairs, frag, tier):
         s = sc.scenario(f"k{i:03d}", stretch(f, rng.choice([1, 5, 20])), chans, msgs)
         s["close_mid"] = [{"side": closer, "sid": 2, "after_recv": rng.choice([1, 3, 10])}]
         scen.append(s)
+    # K sender tasks in parallel on ONE channel, multi-fragment messages (3..40 fragments): every message arrives
+    # whole (content hash), its fragments occupy consecutive TSNs
+    kinds = [dict(), dict(ordered=False), dict(ordered=False, mr=5), dict(mr=5), dict(ordered=False, life=2000)]
+    for i in range(10 if tier == "quick" else 60):
+        ktasks = [2, 4, 8][i % 3]
+        chans = [sc.chan(1, **kinds[i % len(kinds)]), sc.chan(2)]
+        msgs = []
+        for side in ("A", "B") if i % 2 else ("A",):
+            for t in range(ktasks):
+                for _ in range(5):
+                    msgs.append({"from": side, "sid": 1, "len": rng.choice([2345, 3516, 5000, 12000, 20000, 46880]), "task": t})
+        msgs += [{"from": "A", "sid": 2, "len": 10, "phase": 2}, {"from": "B", "sid": 2, "len": 10, "phase": 2}]
+        scen.append(sc.scenario(f"j{i:03d}", [], chans, msgs, deadline_ms=8000, cfg={"max_buffered": 4 << 20}))
     for i, f in enumerate([[]] + sc.sample(singles, n_s, vlib.seed() + 4)):
         chans, msgs = wl_sizes(rng, big=(tier == "thorough" or i % 4 == 0))
         scen.append(sc.scenario(f"z{i:03d}", stretch(f, rng.choice([1, 7, 20])), chans, msgs,
@@ -293,7 +306,19 @@ def selftest():
     i_msg = first(lambda e: e["comp"] == "app" and e["ev"] == "recv" and e.get("kind") == "msg" and e.get("len", 0) > 0)
     i_new = first(lambda e: e["comp"] == "app" and e["ev"] == "newchan")
     i_close = first(lambda e: e["comp"] == "app" and e["ev"] == "recv" and e.get("kind") == "close")
+    i_mid = first(lambda e: e["comp"] == "sctp" and e["ev"] == "tx" and any(c["type"] == 0 and c["flags"] & 3 == 0 for c in e["chunks"]))
+
+    def foreign_fragment(l):
+        l = list(l)
+        e = json.loads(json.dumps(l[i_mid]))
+        for c in e["chunks"]:
+            if c["type"] == 0 and c["flags"] & 3 == 0:
+                c["sid"] = (c["sid"] % 9) + 1
+                break
+        l[i_mid] = e
+        return l
     muts = {
+        "interleaved-fragment": (foreign_fragment, "FragmentsContiguous"),
         "second-open": (lambda l: l[:i_open + 1] + [dict(l[i_open])] + l[i_open + 1:], "OpenOnce"),
         "duplicate-message": (lambda l: l[:i_msg + 1] + [dict(l[i_msg])] + l[i_msg + 1:], "NoDuplicate"),
         "altered-message": (lambda l: l[:i_msg] + [dict(l[i_msg], h=l[i_msg]["h"] ^ 1)] + l[i_msg + 1:], "DeliveredIsSubmitted"),
